@@ -239,6 +239,25 @@ def dup_lists(rng: random.Random, n_lists: int, wild_ok: bool):
         for perm in itertools.permutations([UNIVERSE[0], UNIVERSE[7], UNIVERSE[8]]):
             net = Network([mk(d) for d in perm])
             net.find_duplicate_reaction()
+    # the same reaction arriving through DIFFERENT readers (a network merged from a KIDA, a UMIST and a native file): each reader
+    # has its own Reaction subclass; under the default and the brief mode they are repeats of each other
+    import encoders
+    for rec in ({"r": ["H", "CH"], "p": ["C", "H2"], "tmin": 10.0, "tmax": 300.0},
+                {"r": ["C+", "e-"], "p": ["C"], "tmin": 10.0, "tmax": 41000.0},
+                {"r": ["H2", "O"], "p": ["OH", "H"], "tmin": 300.0, "tmax": 9999.0}):
+        rec = dict(rec, a=1.0e-10, b=0.5, c=0.0, idx=7)
+        forms = [(encoders.kida(dict(rec, code=3)), "kida"), (encoders.umist(dict(rec, code="NN")), "umist"),
+                 (encoders.native(dict(rec, code=100)), "naunet"), (encoders.umist(dict(rec, code="NN", r=rec["r"][::-1])), "umist"),
+                 (encoders.kida(dict(rec, code=3, r=rec["r"][::-1])), "kida")]
+        for order in ((0, 1, 2), (1, 0, 2), (2, 1, 0), (0, 3, 4, 1), (3, 0)):
+            net = Network()
+            for k in order:
+                net.add_reaction(forms[k])
+            for mode in (None, "brief", "minimal", "short"):
+                net.find_duplicate_reaction(mode)
+            _, dupidx, _ = net.find_duplicate_reaction()
+            net.remove_reaction(list(dupidx))
+            net.find_duplicate_reaction()
     for _ in range(n_lists):
         base = [random_reaction(rng, wild_ok) for _ in range(rng.randint(1, 3))]
         lst = []
@@ -297,7 +316,8 @@ def extend_runs(ctx: Ctx, rng: random.Random, n: int):
         recs = [{"r": list(x[0]), "p": list(x[1]), "a": 1.0e-10 * (k2 + 1), "b": 0.0, "c": 0.0, "tmin": x[2], "tmax": x[3], "idx": k2 + 1, "code": x[4]}
                 for k2, x in enumerate(descs)]
         (d / "in.naunet").write_text("".join(encoders.native(r) + "\n" for r in recs))
-        input_keys = [(tuple(x[0]), tuple(x[1]), round(x[2] * 10), round(x[3] * 10), int(x[4]), k2 + 1) for k2, x in enumerate(descs)]
+        from naunet.reactiontype import ReactionType as _RT
+        input_keys = [(tuple(x[0]), tuple(x[1]), round(x[2] * 10), round(x[3] * 10), int(x[4]), k2 + 1, _RT(int(x[4])).name) for k2, x in enumerate(descs)]
         opts = []
         optrec = {"red": False, "reduce": [], "rm": False, "rmspecies": [], "rmdup": False, "phases": []}
         if rng.random() < 0.5:
